@@ -55,9 +55,12 @@ pub const SPECS: &[PropSpec] = &[
     PropSpec { id: "C12", engine: Engine::Outage, profiles: &[], level: "fault_enumeration", quick_secs: 75, quick_runs: 100_000, thorough_secs: 1200, rule: RULE_OUTAGE },
     PropSpec { id: "C13", engine: Engine::Client, profiles: &[], level: "exploration", quick_secs: 60, quick_runs: 100_000, thorough_secs: 900, rule: RULE_CLIENT },
     PropSpec { id: "C14", engine: Engine::Client, profiles: &[], level: "exploration", quick_secs: 60, quick_runs: 100_000, thorough_secs: 900, rule: RULE_CLIENT },
+    PropSpec { id: "C15", engine: Engine::Seq, profiles: &[(Profile::Http, 100)], level: "exploration", quick_secs: 60, quick_runs: 30_000, thorough_secs: 900, rule: RULE_HTTP },
     PropSpec { id: "C18", engine: Engine::Client, profiles: &[], level: "exploration", quick_secs: 60, quick_runs: 100_000, thorough_secs: 900, rule: RULE_CLIENT },
     PropSpec { id: "C19", engine: Engine::Seq, profiles: &[(Profile::Chain, 70), (Profile::Breach, 30)], level: "exploration", quick_secs: 60, quick_runs: 30_000, thorough_secs: 900, rule: RULE_SEQ },
 ];
+
+const RULE_HTTP: &str = "histories as for C01/C06 (several users, small blobs, breaches, expiry, node flagged unreachable) whose API operations are made as HTTP/1.1 requests against the real warp router served by hyper over an in-memory pipe, in front of the real internal API behind a real tonic channel; each request is the valid request of the operation under a seeded mutation (re-encodings that keep its meaning; drop / duplicate / retype / resize a field, odd or non-hex strings, empty strings, oversized or chunked bodies, other methods and paths, raw bytes, deep nesting, truncation, out-of-range numbers); evaluations = histories; non-trivial = at least one request had to be refused and at least one kept its meaning; distinct = distinct hash of (config, operation list)";
 
 const RULE_CRASH: &str = "histories as for C01 (shorter, with block-download failures and multi-block polls); each history is first executed uninterrupted to number the crash points it passes (before/after every durable write and explicit sqlite commit, before/after every node RPC and block-source call); then it is re-executed once per crash point (quick: 12 sampled per history; thorough: every point), the tower being killed there, restarted on the same sqlite file and driven through the remaining operations; evaluations = executions; non-trivial = a crash actually fired in a run with at least one breach / tracker transition / purge; distinct = distinct (history hash, crash point)";
 
@@ -800,6 +803,44 @@ pub fn cmd_check(args: &[String]) -> i32 {
     }
 
     let per_hour = if b.wall > 0.0 { (m.runs as f64 / b.wall * 3600.0) as u64 } else { 0 };
+    let tower_real = vec!["Gatekeeper", "Watcher", "Responder", "Carrier", "TxIndex", "tower DBM + bundled SQLite", "InternalAPI (public+private service impls)", "ChainMonitor::poll_best_tip", "lightning_block_sync SpvClient/ChainPoller/UnboundedCache", "bitcoincore_rpc request/reply codec", "teos_common receipts + cryptography"];
+    let (assumptions, real_components, stub_components): (Vec<&str>, Vec<&str>, Vec<&str>) = match spec.engine {
+        Engine::Client => (
+            vec![
+                "SQLite commit atomicity and durability are trusted (a kill loses nothing that a statement / transaction had committed)",
+                "the plugin's main() wiring (options, hook and command registration, RetryManager task) is restated in the harness around the real handlers",
+                "towers are scripted fakes behind the guarded SimNet seam of net::http::request: reqwest, TLS, Tor and sockets are not in the loop",
+                "all timers read tokio's paused clock (tokio::time::Instant and backoff's clock are switched by the guarded imports in retrier.rs)",
+            ],
+            vec!["watchtower-plugin main.rs handlers (include!d)", "WTClient", "plugin DBM + bundled SQLite", "RetryManager / Retrier + backoff", "net::http reply classification (process_post_response, send_appointment, register)", "cln_plugin framing and dispatch over in-memory pipes", "teos_common receipts + cryptography + serde adapters", "tokio current-thread runtime with paused clock"],
+            vec!["lightningd (scripted JSON-RPC peer over pipes)", "towers (scripted FakeTower replies through SimNet)", "reqwest / sockets / TLS / Tor", "plugin main() option parsing (restated)"],
+        ),
+        _ if id == "C15" => (
+            vec![
+                "SQLite commit atomicity and durability are trusted",
+                "SimNode's sendrawtransaction/getrawtransaction verdict table follows Bitcoin Core's documented behaviour",
+                "teos/src/main.rs wiring is restated in the harness; the HTTP front is served by hyper::server::conn::Http over tokio::io::duplex instead of warp::serve on a TCP socket; the gRPC hop is a real tonic Channel and Server over another duplex pipe",
+                "requests are well-framed HTTP/1.1 (framing errors are hyper's business); TLS, Tor and TCP are not in the loop; the remote address seen by the handlers is None",
+                "the documented error codes are those of teos-common/src/errors.rs other than 255; which of them answers which malformation is not judged",
+            ],
+            {
+                let mut v = vec!["api::http router, handlers, handle_rejection, match_status (via guarded verif_router)", "warp filters + hyper HTTP/1.1 server", "tonic client Channel + Server (PublicTowerServicesServer) incl. prost codec", "teos_common serde adapters (hex, reversed hex, status)"];
+                v.extend(tower_real.iter());
+                v
+            },
+            vec!["bitcoind (SimNode model)", "TCP sockets / TLS / Tor", "main.rs wiring (restated)"],
+        ),
+        _ => (
+            vec![
+                "SQLite commit atomicity and durability are trusted (crash granularity: one SQL statement / one explicit transaction)",
+                "SimNode's sendrawtransaction/getrawtransaction verdict table follows Bitcoin Core's documented behaviour",
+                "teos/src/main.rs wiring is restated in the harness (listener order gatekeeper->watcher->responder, 100/6-block caches, backlog poll before the API, persisted starting block)",
+                "tonic transport, TLS, Tor, HTTP socket layer are not in the loop for this property: requests are calls of the InternalAPI service methods",
+            ],
+            tower_real.clone(),
+            vec!["bitcoind (SimNode model)", "BitcoindClient HTTP wrapper (SimNode implements BlockSource)", "main.rs wiring (restated)", "tonic/warp transports"],
+        ),
+    };
     let evidence = json!({
         "property_id": id,
         "tier": if thorough { "thorough" } else { "quick" },
@@ -807,12 +848,7 @@ pub fn cmd_check(args: &[String]) -> i32 {
         "level": spec.level,
         "wall_s": b.wall,
         "violations": n_viol,
-        "assumptions": [
-            "SQLite commit atomicity and durability are trusted (crash granularity: one SQL statement / one explicit transaction)",
-            "SimNode's sendrawtransaction/getrawtransaction verdict table follows Bitcoin Core's documented behaviour",
-            "teos/src/main.rs wiring is restated in the harness (listener order gatekeeper->watcher->responder, 100/6-block caches, backlog poll before the API)",
-            "tonic transport, TLS, Tor, HTTP socket layer are not in the loop for this property"
-        ],
+        "assumptions": assumptions,
         "coverage": {
             "evaluations": m.runs,
             "distinct_nontrivial": m.nontrivial_hashes.len(),
@@ -844,8 +880,8 @@ pub fn cmd_check(args: &[String]) -> i32 {
             "violations_of_other_properties_seen_not_reported_here": m.other_property,
             "determinism_selftest_seeds": det_n,
             "worker_processes": b.jobs,
-            "real_components": ["Gatekeeper", "Watcher", "Responder", "Carrier", "TxIndex", "tower DBM + bundled SQLite", "InternalAPI (public+private service impls)", "ChainMonitor::poll_best_tip", "lightning_block_sync SpvClient/ChainPoller/UnboundedCache", "bitcoincore_rpc request/reply codec", "teos_common receipts + cryptography"],
-            "stub_components": ["bitcoind (SimNode model)", "BitcoindClient HTTP wrapper (SimNode implements BlockSource)", "main.rs wiring (restated)", "tonic/warp transports"],
+            "real_components": real_components,
+            "stub_components": stub_components,
             "exhaustive": false
         }
     });
@@ -879,6 +915,7 @@ pub fn expected_probes(id: &str) -> &'static [&'static str] {
         "C07" => &["appointment_update", "update_shrinks", "multi_slot_blob", "empty_blob_accepted", "add_not_enough_slots", "tracker_completed", "renewal"],
         "C08" => &["appointment_update", "registration", "renewal", "add_triggered_in_cache"],
         "C09" => &["user_purged", "add_expired", "renewal", "block_disconnected"],
+        "C15" => &["http_refusal_expected", "http_meaning_kept", "http_503", "http_status:200", "http_status:400", "http_status:401", "http_status:404", "http_status:405", "http_status:411", "http_status:413", "http_code:1", "http_code:2", "http_code:3", "http_code:4", "http_code:5", "http_code:6", "http_code:7", "http_code:32", "http_code:35", "http_code:36", "http_code:65", "add_triggered_in_cache", "add_expired", "add_not_enough_slots"],
         _ => &[],
     }
 }
